@@ -26,6 +26,9 @@ import GraphiqModel.Proofs.CommuteTableau
 import GraphiqModel.Proofs.CommuteRecordRw
 import GraphiqModel.Proofs.CommuteHilbert
 import GraphiqModel.Proofs.CommuteProb
+import GraphiqModel.Proofs.SweepCommuteDM
+import GraphiqModel.Proofs.SweepCommuteDMRefine
+import GraphiqModel.Proofs.DMCompileH
 namespace Graphiq.C13
 open Graphiq Graphiq.Wire
 
@@ -922,5 +925,202 @@ example : ∃ c4, exC3.assignNoise [12, 14, 4, 13, 7] = .ok c4 ∧ Commute.Rewri
       .tail (.tail (.tail (.tail (.refl _) (.unwrap [2, 6])) (.group [⟨.e, 0⟩, ⟨.p, 0⟩, ⟨.c, 0⟩])) (.removeIdentity []))
         (.assignNoise _ c4 hr)
     exact ⟨c4, rfl, hchain, hchain.flat_eq exC_good⟩
+
+/-! ## 2g (sweep). the commutation hypothesis discharged for a density-matrix semantics
+
+  `Commute.appD ne np : SOp → DSt → DSt` (Proofs/SweepCommuteDM.lean) reads an operation of the compile sequence exactly as the
+  stabilizer semantics `Commute.appRaw` does — same decoding (`Commute.decode`), outcomes attached to the measured registers —
+  but acts on complex `2ⁿ × 2ⁿ` matrices: gates conjugate by their unitaries (`Hilbert.gateMat`), a measurement with recorded
+  outcome `o` conjugates by the projector `Hilbert.projZ n q o` (unnormalised branch: the trace is the probability of the recorded
+  outcomes; an impossible branch is the zero matrix).  The hypothesis `hcomm` of §2 is a theorem for it
+  (`Hilbert.local_conj_comm` of deep-c01's `Proofs/HilbertBridgeCommute.lean`: matrices local on disjoint qubit sets commute),
+  for **every** matrix — not only for stabilizer states —, so the three theorems of §2 hold for the density-matrix reading of the
+  compile loop with no physical assumption.  (With *forced* measurement settings instead of attached outcomes independent
+  measurements do not commute, see `exF` below; `DMH.dmRunH` of C01 is setting-driven and is tied to the stabilizer run by
+  `C01.backends_agree`, hence to these statements through §2c / §2f.) -/
+
+/-- **operations on disjoint quantum registers commute in the density-matrix semantics** (every matrix, every outcome
+    assignment) -/
+theorem density_matrix_ops_on_disjoint_registers_commute (ne np : Nat) (a b : SOp) (h : ∀ r, r ∈ a.regs → r ∉ b.regs)
+    (s : Commute.DSt (ne + np)) :
+    Commute.appD ne np a (Commute.appD ne np b s) = Commute.appD ne np b (Commute.appD ne np a s) :=
+  Commute.appD_comm ne np a b h s
+
+/-- `same_wires_same_state` for the density-matrix semantics -/
+theorem same_wires_same_state_dm (ne np : Nat) (l1 l2 : List SOp) (hne1 : ∀ a, a ∈ l1 → a.regs ≠ [])
+    (hne2 : ∀ a, a ∈ l2 → a.regs ≠ []) (h : ∀ r, projReg SOp.regs r l1 = projReg SOp.regs r l2) (s : Commute.DSt (ne + np)) :
+    runSeq (Commute.appD ne np) l1 s = runSeq (Commute.appD ne np) l2 s :=
+  same_wires_same_state SOp.regs (Commute.appD ne np) (Commute.appD_comm ne np) l1 l2 hne1 hne2 h s
+
+/-- **the density matrix a circuit compiles to does not depend on the topological order** `sequence()` returns — every
+    circuit, every pair of linear extensions, every initial matrix, every assignment of outcomes to the measuring operations -/
+theorem compile_independent_of_topological_order_dm (ne np : Nat) (c : Circuit) (hgood : c.Good) (seq1 seq2 : List Nat)
+    (hl1 : c.isLinearExtension seq1 = true) (hl2 : c.isLinearExtension seq2 = true) (s : Commute.DSt (ne + np)) :
+    runSeq (Commute.appD ne np) (c.sops seq1) s = runSeq (Commute.appD ne np) (c.sops seq2) s :=
+  compile_independent_of_topological_order (Commute.appD ne np) (Commute.appD_comm ne np) c hgood seq1 seq2 hl1 hl2 s
+
+/-- **copying, unwrapping, grouping, removing identities and attaching an empty noise map — and any chain of them — do not
+    change the density matrix the circuit compiles to** -/
+theorem rewrite_chain_preserves_compiled_state_dm (ne np : Nat) (c c' : Circuit) (hgood : c.Good) (h : Commute.RewritesStar c c')
+    (seq seq' : List Nat) (hl : c.isLinearExtension seq = true) (hl' : c'.isLinearExtension seq' = true)
+    (s : Commute.DSt (ne + np)) :
+    runSeq (Commute.appD ne np) (c'.sops seq') s = runSeq (Commute.appD ne np) (c.sops seq) s :=
+  rewrite_chain_preserves_compiled_state (Commute.appD ne np) (Commute.appD_comm ne np) c c' hgood h seq seq' hl hl' s
+
+/-- **the density-matrix semantics is tied to the compile loop**: on gate-only circuits, running `Commute.appD` along the
+    compile sequence from `|0…0⟩⟨0…0|` gives the density matrix `ρ(t)` of the very tableau `t` the stabilizer backend
+    (`stabRun`) returns for that sequence — for every topological order, setting and script (`Commute.appD` refines the
+    stabilizer compile step `Commute.appT` gate by gate: `rho_tab_gate` of C07; weight exactly 1).  The general case, with
+    measurements, is `density_matrix_run_is_weighted_rho_of_compiled_tableau` below. -/
+theorem density_matrix_semantics_is_rho_of_compiled_tableau (c : Circuit) (hgood : c.Good) (har : Commute.ArityOk c)
+    (hg : Commute.GateOnly c) (seq : List Nat) (d : Det) (script : List Bool) (sc : Commute.Script) :
+    ∃ s, stabRun c.ne c.np d script ((c.sops seq).map Commute.toCOp) = some s ∧
+      runSeq (Commute.appD c.ne c.np) (c.sops seq) (some (Hilbert.tabRho (c.ne + c.np) (Tab.ket0 (c.ne + c.np)), sc))
+        = some (Hilbert.tabRho (c.ne + c.np) s.t, sc) := by
+  have hok := Commute.sops_gate_ok c hgood har hg seq
+  obtain ⟨s', h1, _, h2⟩ := Commute.runSeq_appD_refines c.ne c.np (c.sops seq) (fun a ha => ⟨(hok a ha).1, (Commute.sops_ok c hgood har seq a ha).2⟩)
+    { t := Tab.ket0 (c.ne + c.np), writes := [], script := script, rand := [], outs := [] } rfl sc
+  exact ⟨s', by rw [Commute.stabRun_eq_runSeq c hgood har hg seq d script c.ne c.np rfl rfl]; exact h1, h2⟩
+
+/-- **the measurement primitive of the density-matrix semantics is the Born-weighted tableau measurement**: on `ρ(t)` (valid
+    tableau, real stabilizer rows) with recorded outcome `o` it returns `w · ρ(t')`, `t'` the tableau `z_measurement_gate`
+    returns (C07 `meas_density`), `w = tr(Π_o ρ)` the probability of the recorded outcome when it can occur — then it is the
+    outcome the API reports — and `w = 0` (zero matrix: the branch cannot occur) otherwise; scalar weights pass through every
+    primitive (`Commute.appPD_smul`), so weights multiply along a run -/
+theorem density_matrix_measurement_is_born_weighted_tableau_measurement (t : Tab) (q : Nat) (o : Bool) (hq : q < t.n)
+    (hv : t.Valid) (hr : t.StabReal) :
+    Commute.appPD t.n (.meas q o) (some (Hilbert.tabRho t.n t)) =
+      some ((if (t.zMeasure q o).2.1 = o then Matrix.trace (Hilbert.proj t.n (PRow.Zq q o) * Hilbert.tabRho t.n t) else 0) •
+        Hilbert.tabRho t.n (t.zMeasure q o).1) :=
+  Commute.appPD_meas_tab t q o hq hv hr
+
+/-- the hypotheses of `density_matrix_semantics_is_rho_of_compiled_tableau` are met by `exG` (gate-only, good, arities right) -/
+example (sc : Commute.Script) : ∃ s, stabRun exG.ne exG.np .zero [] ((exG.sops [1, 2, 3, 4]).map Commute.toCOp) = some s ∧
+    runSeq (Commute.appD exG.ne exG.np) (exG.sops [1, 2, 3, 4])
+      (some (Hilbert.tabRho (exG.ne + exG.np) (Tab.ket0 (exG.ne + exG.np)), sc)) = some (Hilbert.tabRho (exG.ne + exG.np) s.t, sc) :=
+  density_matrix_semantics_is_rho_of_compiled_tableau exG exG_good exG_arity exG_gates [1, 2, 3, 4] .zero [] sc
+
+/-- **every operation of the compile sequence, in the density-matrix semantics, refines the tableau API of C07 with Born
+    weights**: on `c · ρ(t)` (valid tableau, real stabilizer rows) it returns `(c · w) · ρ(t')`, where `t'` is the tableau after
+    the API calls the operation makes (`Commute.apiPs`: row maps for gates, `z_measurement_gate` with the recorded outcome, the
+    classically controlled correction / reset flip iff the recorded outcome is 1) and `w` (`Commute.weightPs`) the product of the
+    Born probabilities of the recorded outcomes — `0`, i.e. the zero matrix, iff a recorded outcome cannot occur.  Validity and
+    realness of `t'` are part of the statement, so the theorem chains along a compile sequence. -/
+theorem density_matrix_operation_refines_tableau_api (ne np : Nat) (a : SOp) (d : Commute.Dec)
+    (hd : Commute.decode ne np a = some d) (t : Tab) (hn : t.n = ne + np) (hv : t.Valid) (hr : t.StabReal)
+    (sc : Commute.Script) (hhas : d.has sc) (hok : ∀ p ∈ d.prims (d.out sc), Commute.primOk (ne + np) p = true) (c : ℂ) :
+    Commute.appD ne np a (some (c • Hilbert.tabRho (ne + np) t, sc)) =
+      some ((c * Commute.weightPs (d.prims (d.out sc)) t) • Hilbert.tabRho (ne + np) (Commute.apiPs (d.prims (d.out sc)) t),
+        d.pop sc) ∧
+    (Commute.apiPs (d.prims (d.out sc)) t).Valid ∧ (Commute.apiPs (d.prims (d.out sc)) t).StabReal ∧
+    (Commute.apiPs (d.prims (d.out sc)) t).n = ne + np :=
+  Commute.appD_api ne np a d hd t hn hv hr sc hhas hok c
+
+/-- **the density-matrix semantics refines the stabilizer semantics of §2b, operation by operation** (gates, measurements,
+    classically controlled corrections, measure-and-reset): on a valid tableau `t` with real stabilizer rows, with `t'` the
+    tableau after the operation's API calls and `w` the Born weight of the recorded outcome,
+    * `Commute.appRaw` on the group of `t` is undefined ("this outcome cannot occur") **iff** `w = 0`, and otherwise returns the
+      group of `t'` with the outcome stream popped;
+    * `Commute.appD` on `c · ρ(t)` returns `(c · w) · ρ(t')` with the same stream;
+    * `t'` is again valid with real stabilizer rows, so the statement chains along any compile sequence: the matrix the
+      density-matrix semantics carries is (probability of the recorded outcomes) × (density matrix of the stabilizer state the
+      stabilizer semantics carries). -/
+theorem density_matrix_semantics_refines_stabilizer_semantics (ne np : Nat) (a : SOp) (d : Commute.Dec)
+    (hd : Commute.decode ne np a = some d) (t : Tab) (ht : Commute.TInv (ne + np) t) (sc : Commute.Script) (hhas : d.has sc)
+    (hok : ∀ p ∈ d.prims (d.out sc), Commute.primOk (ne + np) p = true) (c : ℂ) :
+    Commute.appRaw ne np a (some (TabSpec.gstate t, sc)) =
+      (if Commute.weightPs (d.prims (d.out sc)) t = 0 then none
+       else some (TabSpec.gstate (Commute.apiPs (d.prims (d.out sc)) t), d.pop sc)) ∧
+    Commute.appD ne np a (some (c • Hilbert.tabRho (ne + np) t, sc)) =
+      some ((c * Commute.weightPs (d.prims (d.out sc)) t) • Hilbert.tabRho (ne + np) (Commute.apiPs (d.prims (d.out sc)) t),
+        d.pop sc) ∧
+    Commute.TInv (ne + np) (Commute.apiPs (d.prims (d.out sc)) t) :=
+  Commute.appD_refines_appRaw ne np a d hd t ht sc hhas hok c
+
+/-- **the density-matrix semantics is tied to the compile loop, measurements included**: for every sane circuit, order, setting
+    and script, if the stabilizer backend (`stabRun`) returns the state `s'`, then the density-matrix semantics run along the
+    same compile sequence from `|0…0⟩⟨0…0|`, on the outcome streams made of the outcomes `stabRun` recorded, ends in
+    `w · ρ(s'.t)` with `w ≠ 0` — the density matrix of the compiled tableau times the probability of the recorded outcomes —
+    and has consumed exactly those outcomes.  (`Commute.run_refines_dm` + `Commute.stabRun_refines` + gauge independence
+    `Commute.rho_eq_of_grp_eq`.) -/
+theorem density_matrix_run_is_weighted_rho_of_compiled_tableau (c : Circuit) (hgood : c.Good) (har : Commute.ArityOk c)
+    (seq : List Nat) (d : Det) (script : List Bool) (s' : RunState)
+    (h : stabRun c.ne c.np d script ((c.sops seq).map Commute.toCOp) = some s') (sc : Commute.Script) :
+    ∃ w : ℂ, w ≠ 0 ∧
+      runSeq (Commute.appD c.ne c.np) (c.sops seq)
+        (some (Hilbert.tabRho (c.ne + c.np) (Tab.ket0 (c.ne + c.np)), Commute.feed c.ne c.np (c.sops seq) s'.outs sc))
+        = some (w • Hilbert.tabRho (c.ne + c.np) s'.t, sc) := by
+  obtain ⟨hT, hrun⟩ := Commute.stabRun_refines c hgood har seq d script s' h
+  have hinit : Commute.TInv (c.ne + c.np) (Tab.ket0 (c.ne + c.np)) :=
+    ⟨Tab.ket0_valid _, Hilbert.ket0_stabReal _, rfl⟩
+  obtain ⟨t', w, hw, ht', hg', hD⟩ := Commute.run_refines_dm c.ne c.np (c.sops seq) (Commute.sops_ok c hgood har seq)
+    (Tab.ket0 (c.ne + c.np)) (Commute.feed c.ne c.np (c.sops seq) s'.outs sc) 1 hinit (TabSpec.gstate s'.t) sc (hrun sc)
+  have hρ : Hilbert.tabRho (c.ne + c.np) t' = Hilbert.tabRho (c.ne + c.np) s'.t := by
+    apply Commute.rho_eq_of_grp_eq ht' hT
+    intro P
+    have := congrArg TabSpec.GState.G hg'
+    exact (iff_of_eq (congrFun this P)).symm
+  rw [one_smul, one_mul, hρ] at hD
+  exact ⟨w, hw, hD⟩
+
+/-- **… and to C01's reading of the `DensityMatrixCompiler`**: `DMH.dmRunH` (C01: the setting- and script-driven Hilbert-space
+    run of the density-matrix backend, normalised after every measurement) returns, on the same compile sequence, a state
+    whose matrix is `ρ(s'.t)` (`C01.backends_agree`), and the outcome-attached, unnormalised run of `Commute.appD` ends in
+    `w` times that matrix, `w ≠ 0` the probability of the recorded outcomes.  So the order-independence and rewrite-invariance
+    theorems of this section (`compile_independent_of_topological_order_dm`, `rewrite_chain_preserves_compiled_state_dm`) speak
+    about the very matrices C01's density-matrix run produces, branch by branch. -/
+theorem density_matrix_compiler_run_is_normalised_appD_run (c : Circuit) (hgood : c.Good) (har : Commute.ArityOk c)
+    (seq : List Nat) (d : Det) (script : List Bool) (s' : RunState)
+    (h : stabRun c.ne c.np d script ((c.sops seq).map Commute.toCOp) = some s') (sc : Commute.Script) :
+    ∃ (r : DMH.HState (c.ne + c.np)) (w : ℂ),
+      DMH.dmRunH c.ne c.np d script ((c.sops seq).map Commute.toCOp) = some r ∧
+      r.ρ = Hilbert.tabRho (c.ne + c.np) s'.t ∧ w ≠ 0 ∧
+      runSeq (Commute.appD c.ne c.np) (c.sops seq)
+        (some (Hilbert.tabRho (c.ne + c.np) (Tab.ket0 (c.ne + c.np)), Commute.feed c.ne c.np (c.sops seq) s'.outs sc))
+        = some (w • r.ρ, sc) := by
+  have hwf : ∀ op, op ∈ (c.sops seq).map Commute.toCOp → op.WF c.np := by
+    intro op hop
+    obtain ⟨a, ha, rfl⟩ := List.mem_map.1 hop
+    obtain ⟨hsome, hnd⟩ := Commute.sops_ok c hgood har seq a ha
+    obtain ⟨dd, hdd⟩ := Option.isSome_iff_exists.1 hsome
+    have hw2 := (Commute.decode_toCOp c.ne c.np a dd hdd hnd).1
+    cases hc : Commute.toCOp a <;> rw [hc] at hw2 <;> first | exact hw2 | trivial
+  obtain ⟨w, hw, hD⟩ := density_matrix_run_is_weighted_rho_of_compiled_tableau c hgood har seq d script s' h sc
+  exact ⟨_, w, DMH.dmRunH_eq_stab c.ne c.np d script _ hwf s' h, rfl, hw, hD⟩
+
+/-- the hypotheses of `density_matrix_run_is_weighted_rho_of_compiled_tableau` are met by `exD` (a circuit with a measurement,
+    forced to 1, which is random): `stabRun` returns, so the density-matrix run along its compile sequence ends in a non-zero
+    multiple of the density matrix of the compiled tableau -/
+example (sc : Commute.Script) : ∃ (s' : RunState) (w : ℂ), w ≠ 0 ∧
+    runSeq (Commute.appD exD.ne exD.np) (exD.sops [1, 2, 3, 4])
+      (some (Hilbert.tabRho (exD.ne + exD.np) (Tab.ket0 (exD.ne + exD.np)), Commute.feed exD.ne exD.np (exD.sops [1, 2, 3, 4]) s'.outs sc))
+      = some (w • Hilbert.tabRho (exD.ne + exD.np) s'.t, sc) := by
+  have e1 : (stabRun exD.ne exD.np .one [] ((exD.sops [1, 2, 3, 4]).map Commute.toCOp)).isSome = true := by decide +kernel
+  obtain ⟨s1, h1⟩ := Option.isSome_iff_exists.mp e1
+  obtain ⟨w, hw, hD⟩ := density_matrix_run_is_weighted_rho_of_compiled_tableau exD exD_good exD_arity [1, 2, 3, 4] .one [] s1 h1 sc
+  exact ⟨s1, w, hw, hD⟩
+
+/-- its hypotheses are met: `ClassicalCNOT(p0 → p1)` on two photons with recorded outcome 1 decodes to
+    `[measure p0 ↦ 1, X p1]`, both within range, and an outcome is supplied -/
+example : ∃ d, Commute.decode 0 2 ⟨.node .ccnot [⟨.p, 0⟩, ⟨.p, 1⟩] [0], [⟨.p, 0⟩, ⟨.p, 1⟩]⟩ = some d ∧
+    d.has (fun _ => [true]) ∧ d.prims (d.out (fun _ => [true])) = [.meas 0 true, .x 1] ∧
+    ∀ p ∈ d.prims (d.out (fun _ => [true])), Commute.primOk 2 p = true := by
+  refine ⟨_, rfl, ?_, rfl, ?_⟩
+  · show (fun _ : Reg => [true]) ⟨.p, 0⟩ ≠ []
+    simp
+  · intro p hp
+    have : p ∈ [Tab.Op.meas 0 true, Tab.Op.x 1] := hp
+    simp only [List.mem_cons, List.not_mem_nil, or_false] at this
+    rcases this with rfl | rfl <;> rfl
+
+/-- … and `|00⟩` satisfies the tableau invariant `Commute.TInv` -/
+example : Commute.TInv (0 + 2) (Tab.ket0 2) := ⟨(Tab.isSymplectic_iff _).mp (by decide), Hilbert.ket0_stabReal 2, rfl⟩
+
+/-- the hypotheses of `density_matrix_measurement_is_born_weighted_tableau_measurement` are met by `|00⟩` -/
+example : 0 < (Tab.ket0 2).n ∧ (Tab.ket0 2).Valid ∧ (Tab.ket0 2).StabReal :=
+  ⟨by decide, (Tab.isSymplectic_iff _).mp (by decide), Hilbert.ket0_stabReal 2⟩
+
+/-- the hypothesis of the commutation theorems is met by real operations: a Hadamard on emitter 0 and a CNOT on photons 0, 1 -/
+example : ∀ r, r ∈ [(⟨.e, 0⟩ : Reg)] → r ∉ [(⟨.p, 0⟩ : Reg), ⟨.p, 1⟩] := by decide
 
 end Graphiq.C13
